@@ -765,7 +765,44 @@ def rule_i(ctx):
     ctx.floor(R, 2)
 
 
+def rule_j(ctx):
+    R = "C14.j"
+    ctx.rule(R, "supports keep the order in which they were given: setup_kernel_problem removes duplicate supports but stores the remaining ones "
+             "(and their values) in the caller's order -- np.unique returns its rows sorted, and values that arrive later without supports "
+             "(update(values=...), update_model_parameters(dofs=['values']), the calibration of variable values) are in the caller's order; "
+             "an inverse kernel matrix built for sorted supports would prescribe them at the wrong points")
+    m = ctx.model
+    f = m.func(KINT, "KernelInterpolation.setup_kernel_problem")
+    ctx.instance(R)
+    uniq = [st for st in ast.walk(f.node) if isinstance(st, ast.Assign) and isinstance(st.value, ast.Call) and norm(st.value.func) == "np.unique"]
+    if not uniq:
+        ctx.ob(R, f.qname, "the stored supports are in the caller's order", False, "duplicate removal through np.unique not found", f.node)
+        ctx.floor(R, 1)
+        return
+    st = uniq[0]
+    t0 = st.targets[0].elts[0] if isinstance(st.targets[0], (ast.Tuple, ast.List)) and st.targets[0].elts else st.targets[0]
+    idx_name = None
+    if isinstance(st.targets[0], (ast.Tuple, ast.List)) and len(st.targets[0].elts) >= 2 and any(k.arg == "return_index" for k in st.value.keywords):
+        idx_name = norm(st.targets[0].elts[1])
+    sorted_to_attr = norm(t0) == "self.supports"
+    # or through a local that is then stored
+    if not sorted_to_attr and isinstance(t0, ast.Name) and t0.id != "_":
+        sorted_to_attr = any(isinstance(a, ast.Assign) and norm(a.targets[0]) == "self.supports" and norm(a.value) == t0.id for a in ast.walk(f.node))
+    if sorted_to_attr:
+        ctx.ob(R, f.qname, "the stored supports are in the caller's order", False,
+               f"`{norm(st)[:100]}`: the first result of np.unique -- the rows in sorted order -- becomes self.supports; values given later without supports are "
+               "multiplied with the inverse kernel matrix of the sorted supports and end up at other points", st, evidence=True)
+    else:
+        # the index vector must be brought back to increasing order before it selects supports and values
+        resorted = idx_name is not None and any(isinstance(a, ast.Assign) and norm(a.targets[0]) == idx_name and norm(a.value) in (f"np.sort({idx_name})", f"sorted({idx_name})", f"np.array(sorted({idx_name}))") for a in ast.walk(f.node))
+        sel = [a for a in ast.walk(f.node) if isinstance(a, ast.Assign) and norm(a.targets[0]) in ("self.supports", "self.values") and isinstance(a.value, ast.Subscript) and norm(a.value.slice) == (idx_name or "")]
+        ctx.ob(R, f.qname, "the stored supports are in the caller's order", resorted and len(sel) == 2,
+               f"index vector of the first occurrences re-sorted: {resorted}; supports and values selected with it: {[norm(a)[:50] for a in sel]}", st)
+    ctx.floor(R, 1)
+
+
 def run(ctx):
+    rule_j(ctx)
     rule_i(ctx)
     rule_a(ctx)
     rule_b(ctx)
